@@ -54,7 +54,7 @@ type FnConfig struct {
 }
 
 func (e *Engine) newCtx(f *ssa.Function, em *Emit) *fnCtx {
-	return &fnCtx{eng: e, em: em, f: f, vals: map[ssa.Value]*Val{}, occ: map[string]int{}, dead: map[string]bool{}}
+	return &fnCtx{eng: e, em: em, f: f, vals: map[ssa.Value]*Val{}, occ: map[string]int{}, dead: map[string]bool{}, assertHit: map[int]bool{}}
 }
 
 // buildVC translates f once (with the given dead-candidate set) and returns the context.
@@ -143,6 +143,16 @@ func (e *Engine) buildVC(f *ssa.Function, cfg *FnConfig, dead map[string]bool) (
 	c.run()
 	c.checkPost(c.params)
 	c.initObligations()
+	if c.ct != nil {
+		for ai, as := range c.ct.Asserts {
+			if !c.assertHit[ai] && !as.Assume {
+				o := &Obl{Class: "assert", Fn: c.fnName(), Pos: c.eng.prog.Fset.Position(f.Pos()), Text: as.Expr.Src, Guard: "true", Cond: "false"}
+				o.Name = fmt.Sprintf("%s#assert:%s%d:anchor-missing", o.Fn, as.Callee, as.Ord)
+				o.Raw = "the anchored call site does not exist in the function"
+				c.obls = append(c.obls, o)
+			}
+		}
+	}
 	// vacuity guard: some return must be reachable under everything that was assumed
 	if len(c.rets) > 0 {
 		var rs []string
